@@ -18,7 +18,8 @@ def run(report, tier):
     ]
     L = larkcap.capture_dec()
     decsweep.b1(report, L, which=("vacuity", "equiv"), prop_note=" (all 16 statement kinds: which tokens are kept, in which order, under which node)")
-    decsweep.lemmas(report, kinds=("keyword", "number"))
+    decsweep.b2(report, L)                                          # names over the whole label alphabet, numbers as the listed literal forms
+    decsweep.lemmas(report, kinds=("keyword", "number", "word"))
     h = Harness(name="declarations", module="harness.c07", body="body_decl", sig="sel: int", n_sel=H.N,
                 claim="each of the 11 declaration queries reports every statement of its kind with names verbatim and numbers as numbers; "
                       "a later declaration of a name wins; repeated lineshape settings raise; global PHOTOS flag is the last one, off when "
